@@ -1,5 +1,7 @@
 import Clover.Probe.Keys
 import Clover.Model.Index
+import Clover.Proofs.RefineIndex
+import Clover.Proofs.RefineDelete
 /-! # C14 — index catalog exact, indexes independent (key-space part) -/
 namespace CV.Props.C14
 open Keys
@@ -24,5 +26,38 @@ theorem model_entry_key (c f : Bytes) (v : CV.Value) (id : Bytes) :
     defect (field `x` selecting the entries of `xy`). -/
 theorem old_prefix_overlaps (c rest : Bytes) :
     isPrefix (idxPrefixOld c [0x78]) (idxPrefixOld c [0x78, 0x79] ++ semi :: rest) = true := old_prefix_overlap c rest
+
+end CV.Props.C14
+
+namespace CV.Props.C14
+open Keys
+
+variable (likeFn : CV.LikeFn) (fnFam : CV.FnFam)
+
+/-- **CreateIndex** (at any point of a history: before, between or after the writes) answers what the
+    specification answers (`ErrIndexExist`, `ErrCollectionNotExist`) and the new store represents the
+    state with the field catalogued: exactly one entry per document under its current value, the
+    entries of every other index and all documents untouched. -/
+theorem createIndex_exact (s : CV.Spec.State) (σ : CV.KVS) (hw : CV.WF s) (hr : CV.Rep s σ) (c f : Bytes) (hf : Clean f) :
+    let r := CV.withTx true (CV.Op.body likeFn fnFam (.createIndex c f)) CV.noFault σ
+    let sp := CV.Spec.step likeFn fnFam s (.createIndex c f)
+    r.1 = sp.1 ∧ CV.Rep sp.2 r.2.1 ∧ CV.WF sp.2 := CV.createIndex_refines likeFn fnFam s σ hw hr c f hf
+
+/-- **DropIndex** answers what the specification answers (`ErrIndexNotExist`, …) and the new store
+    represents the state without that index: all its entries are gone and nothing else changed —
+    including when another catalogued field has the dropped one as a proper prefix (`x` / `xy`) or
+    is a dotted sub-path of it (`n` / `n.a`). -/
+theorem dropIndex_exact (s : CV.Spec.State) (σ : CV.KVS) (hw : CV.WF s) (hr : CV.Rep s σ) (c f : Bytes) :
+    let r := CV.withTx true (CV.Op.body likeFn fnFam (.dropIndex c f)) CV.noFault σ
+    let sp := CV.Spec.step likeFn fnFam s (.dropIndex c f)
+    r.1 = sp.1 ∧ CV.Rep sp.2 r.2.1 ∧ CV.WF sp.2 := CV.dropIndex_refines likeFn fnFam s σ hw hr c f
+
+/-- **HasIndex / ListIndexes** answer from the catalog of the specification. -/
+theorem hasIndex_exact (s : CV.Spec.State) (σ : CV.KVS) (hr : CV.Rep s σ) (c f : Bytes) :
+    (CV.withTx false (CV.Op.body likeFn fnFam (.hasIndex c f)) CV.noFault σ).1 =
+      (CV.Spec.step likeFn fnFam s (.hasIndex c f)).1 := CV.hasIndex_refines likeFn fnFam s σ hr c f
+theorem listIndexes_exact (s : CV.Spec.State) (σ : CV.KVS) (hr : CV.Rep s σ) (c : Bytes) :
+    (CV.withTx false (CV.Op.body likeFn fnFam (.listIndexes c)) CV.noFault σ).1 =
+      (CV.Spec.step likeFn fnFam s (.listIndexes c)).1 := CV.listIndexes_refines likeFn fnFam s σ hr c
 
 end CV.Props.C14
